@@ -276,7 +276,8 @@ def check_derive(ctx, case):
                 touch(lib_nodes[-1])
             end = lib_nodes[-1]
         else:
-            end = root.subkey_for_path(_path_arg(path, prefix, style))
+            path_obj = _path_arg(path, prefix, style)
+            end = root.subkey_for_path(path_obj)
     except Exception as e:
         raise Discrepancy('private.raises', 'private derivation of a valid path raised %r' % e, case)
     if lib_nodes is not None:
@@ -284,6 +285,14 @@ def check_derive(ctx, case):
             _compare(n, rnodes[i], True, 'private node %d' % i, case, versions)
     else:
         _compare(end, rnodes[-1], True, 'private end node', case, versions)
+        if style == 'list':
+            # the caller's path object is used for a second request: the same levels name the same key
+            try:
+                end2 = root.subkey_for_path(path_obj)
+            except Exception as e:
+                raise Discrepancy('private.repeat.raises', 'second request with the same path object raised %r' % e,
+                                  case)
+            _compare(end2, rnodes[-1], True, 'private end node (same path object, second request)', case, versions)
 
     # 3. split: public-only parent --------------------------------------------------------------------
     j = case.get('split')
@@ -338,8 +347,28 @@ def check_derive(ctx, case):
         return
 
     # refusal clause: a hardened element requested from a public-only key must raise -----------------------
+    tail_obj = _path_arg(tail, 'M' if use_M else '', tail_style)
+    if tail_style == 'list' and not use_M:
+        # the path object has served a request to the private parent before (valid there), and is asked again after
+        # a refusal: neither changes what the public-only key must answer
+        try:
+            below = parent_priv.subkey_for_path(tail_obj)
+        except Exception as e:
+            raise Discrepancy('private.raises', 'private derivation of the tail raised %r' % e, case)
+        _compare(below, rnodes[-1], True, 'private end node (tail from the private parent)', case, versions)
+        for attempt in range(3):
+            try:
+                got_r = parent.subkey_for_path(tail_obj)
+            except Exception as e:
+                ctx.refusal('hardened-from-public:' + type(e).__name__)
+            else:
+                ctx.disc('refusal.subkey_for_path.reused_path', "subkey_for_path(%r) on a public-only key (%s), "
+                         "request %d with a path object used before, returned %s instead of raising"
+                         % (_path_arg(tail, '', tail_style), pubvia, attempt + 1, _describe(got_r)), case)
+                return
+        tail_obj = _path_arg(tail, '', tail_style)
     try:
-        got = parent.subkey_for_path(_path_arg(tail, 'M' if use_M else '', tail_style))
+        got = parent.subkey_for_path(tail_obj)
     except Exception as e:
         ctx.refusal('hardened-from-public:' + type(e).__name__)
     else:
